@@ -547,6 +547,29 @@ func (g *gen) verifyCase(kind string) {
 			c.Nonce, c.Extra, claimMut = "", "", "no_state"
 		}
 	}
+	deleg := false
+	if kind == "jwt" && r.Chance(1, 2) {
+		// verifier option SubjectCheck admitting sub != iss (delegation)
+		deleg = true
+		if r.Chance(2, 3) && claimMut == "none" {
+			sub := "client-b"
+			if s.client == sub {
+				sub = "client-a"
+			}
+			c.Sub = sub
+			claimMut = "delegated"
+			if s.ks.Kind == "profile" {
+				// the subject is a client too, with its own key under the same kid
+				if o := g.pool.Other(r, s.signer, s.alg); o != nil {
+					s.ks.Store = append(s.ks.Store, tok.StoreEntry{Client: sub, Kid: s.kid, Key: tok.JWK{Kid: s.kid, Use: "sig", Key: o}})
+					if r.Chance(1, 2) {
+						s.signer = o // signed by the subject's key, not the issuer's
+						claimMut = "delegated_subkey"
+					}
+				}
+			}
+		}
+	}
 	evil := c
 	if r.Bool() {
 		evil.Sub = "attacker"
@@ -613,24 +636,14 @@ func (g *gen) verifyCase(kind string) {
 		t1 = time.Now().UnixNano()
 		obs = idOutcome(out, err)
 	case "jwt":
-		kindCoq = "VJWTAssertion"
-		var jv *op.JWTProfileVerifier
-		if s.ks.Kind == "profile" {
-			jv = op.NewJWTProfileVerifier(&tok.FakeStorage{Store: s.ks.Store}, issuer, v.MaxIAT, v.Offset, op.SubjectCheck(tok.SubjectCheck))
-		} else {
-			jv = op.NewJWTProfileVerifierKeySet(s.ks.Build(), issuer, v.MaxIAT, v.Offset, op.SubjectCheck(tok.SubjectCheck))
-		}
+		kindCoq = emit.Ctor("VJWTAssertion", emit.Bool(deleg))
+		jv := newJWTVerifier(s.ks, v, deleg)
 		var out *oidc.JWTTokenRequest
 		var err error
 		t0 = time.Now().UnixNano()
 		pan = drv.Catch(func() { out, err = op.VerifyJWTAssertion(ctx, t.Raw, jv) })
 		t1 = time.Now().UnixNano()
-		if out != nil {
-			cl := tok.FromJWTRequest(out)
-			obs = tok.Outcome(&cl, "", err)
-		} else {
-			obs = tok.Outcome(nil, "", err)
-		}
+		obs = jwtOutcome(out, err)
 	case "ro":
 		ar := &oidc.AuthRequest{ClientID: s.client, ResponseType: "code", Nonce: "n0", State: "s0", Scopes: []string{"openid"}, RequestParam: t.Raw}
 		kindCoq = emit.Ctor("VRequestObject", emit.Ctor("mkAuthReq", emit.Str(ar.ClientID), emit.Str(string(ar.ResponseType)), emit.Str(ar.Nonce), emit.Str(ar.State)))
@@ -666,6 +679,241 @@ func (g *gen) verifyCase(kind string) {
 		Human: map[string]any{"verifier": kind, "token": t.Raw, "mut": mut, "scenario": s.scenName, "algs": v.Algs}})
 }
 
+// newJWTVerifier builds the library's JWT profile verifier: storage-backed key
+// lookup for a profile key set, NewJWTProfileVerifierKeySet otherwise; the
+// SubjectCheck option is either the library's SubjectIsIssuer (tagged) or a
+// check admitting delegation.
+func newJWTVerifier(ks tok.KeySetDesc, v tok.VCfg, deleg bool) *op.JWTProfileVerifier {
+	check := op.SubjectCheck(tok.SubjectCheck)
+	if deleg {
+		check = op.SubjectCheck(func(*oidc.JWTTokenRequest) error { return nil })
+	}
+	if ks.Kind == "profile" {
+		return op.NewJWTProfileVerifier(&tok.FakeStorage{Store: ks.Store}, issuer, v.MaxIAT, v.Offset, check)
+	}
+	return op.NewJWTProfileVerifierKeySet(ks.Build(), issuer, v.MaxIAT, v.Offset, check)
+}
+
+func jwtOutcome(out *oidc.JWTTokenRequest, err error) string {
+	if out != nil {
+		cl := tok.FromJWTRequest(out)
+		return tok.Outcome(&cl, "", err)
+	}
+	return tok.Outcome(nil, "", err)
+}
+
+// ---------------------------------------------------------------- sequences on one instance
+
+type pubKey struct {
+	j   tok.JWK
+	alg string
+}
+
+// remoteSeqCase: oidc.CheckSignature several times on ONE remote key set while
+// the provider rotates / withdraws / adds keys or is unreachable; tokens are
+// signed by keys published now, earlier (withdrawn) or never.
+func (g *gen) remoteSeqCase() {
+	r := g.r
+	asym := g.pool.Keys[:8]
+	perm := r.Perm(len(asym))
+	var all []pubKey
+	for i := 0; i < 4; i++ {
+		k := asym[perm[i]]
+		all = append(all, pubKey{tok.JWK{Kid: fmt.Sprintf("k%d", i+1), Use: drv.Pick(r, []string{"sig", "sig", ""}), Key: k}, drv.Pick(r, k.Algs)})
+	}
+	if r.Chance(1, 6) {
+		all[0].j.Kid = "" // a kid-less published key
+	}
+	var allowed []string
+	for _, k := range all {
+		allowed = append(allowed, k.alg)
+	}
+	if r.Chance(1, 5) {
+		allowed = allowed[:2]
+	}
+	skip := r.Chance(1, 4)
+	published := []pubKey{all[0]}
+	ever := []pubKey{all[0]}
+	next := 1
+	ks, ep := tok.NewRemote(skip)
+	n := 3 + r.IntN(3)
+	var steps, obs, acts []string
+	now := time.Now().Unix()
+	hang := false
+	pan := ""
+	for st := 0; st < n && pan == "" && !hang; st++ {
+		act := "keep"
+		fail := false
+		if st > 0 {
+			switch x := r.IntN(20); {
+			case x < 7 && next < len(all): // rotation: only the new key is published
+				act = "rotate"
+				published = []pubKey{all[next]}
+				ever = append(ever, all[next])
+				next++
+			case x < 10 && next < len(all):
+				act = "add"
+				published = append(published, all[next])
+				ever = append(ever, all[next])
+				next++
+			case x < 12 && len(published) > 1:
+				act = "withdraw"
+				published = published[1:]
+			case x < 13:
+				act = "outage"
+				fail = true
+			}
+		}
+		acts = append(acts, act)
+		var pj []tok.JWK
+		for _, k := range published {
+			pj = append(pj, k.j)
+		}
+		ep.Serve(pj, fail)
+		// the token: signed by a key published now or earlier (maybe withdrawn), rarely by a stranger
+		sg := drv.Pick(r, ever)
+		if st > 0 && r.Chance(1, 3) {
+			sg = ever[0] // the oldest key: the one most likely withdrawn by now
+		}
+		if r.Chance(1, 3) {
+			sg = published[len(published)-1]
+		}
+		signer, kid := sg.j.Key, sg.j.Kid
+		if r.Chance(1, 12) {
+			if o := g.pool.Other(r, signer, sg.alg); o != nil {
+				signer = o
+			}
+		}
+		if r.Chance(1, 12) {
+			kid = ""
+		}
+		c := tok.Claims{Iss: issuer, Sub: "user-1", Aud: []string{"client-a"}, Exp: now + 3600, Iat: now - 5, Extra: fmt.Sprintf("s%d", st)}
+		mut := "none"
+		if r.Chance(1, 10) {
+			mut = drv.Pick(r, []string{"sig_flip", "alg_none", "kid_swap", "typ"})
+		}
+		spec := tok.BuildSpec{Signer: signer, Alg: sg.alg, Kid: kid, Claims: c, Payload: c.Payload(tok.PayloadOpts{ExtraKey: "ext"}), Mut: mut,
+			OtherKid: drv.Pick(r, []string{"k1", "k2", "k9"}), EvilClaims: c, EvilPayload: c.Payload(tok.PayloadOpts{}), AltPayload: c.Payload(tok.PayloadOpts{Spaces: true}), Other: g.pool.Keys[(signer.Mat+1)%8]}
+		t, m := tok.Build(r, spec)
+		parsed := m.Bytes
+		if m.Kind != "ok" {
+			parsed = t.Payload
+		}
+		before := ep.Downloads()
+		claims := &oidc.TokenClaims{}
+		var err error
+		ctx, cancel := context.WithTimeout(context.Background(), 5*time.Second)
+		pan = drv.Catch(func() { err = oidc.CheckSignature(ctx, t.Raw, []byte(parsed), claims, allowed, ks) })
+		cancel()
+		if !tok.WaitIdle(ks) {
+			hang = true
+		}
+		res := emit.Ctor("Ok", emit.Str(string(claims.SignatureAlg)))
+		if err != nil {
+			res = emit.Ctor("Err", tok.ClassifyErr(err))
+		}
+		obs = append(obs, emit.Pair(res, emit.Bool(ep.Downloads() > before)))
+		served := emit.Some(tok.JWKList(pj))
+		if fail {
+			served = emit.None
+		}
+		steps = append(steps, emit.Ctor("mkRStep", served, t.Coq(), emit.Str(parsed)))
+	}
+	o := emit.Ctor("ORemoteSeq", emit.List(obs))
+	if pan != "" || hang {
+		o = "OPanic" // a panic, or a key set that never became idle again
+	}
+	in := emit.Ctor("IRemoteSeq", emit.StrList(allowed), emit.Bool(skip), emit.List(steps))
+	tags := []string{"kind=remoteseq", fmt.Sprintf("steps=%d", n), fmt.Sprintf("skip=%v", skip)}
+	seen := map[string]bool{}
+	for _, a := range acts {
+		if !seen[a] {
+			seen[a] = true
+			tags = append(tags, "act_"+a+"=1")
+		}
+	}
+	g.w.Add(emit.Case{Input: in, Observed: o, Tags: tags, Human: map[string]any{"actions": acts, "allowed": allowed}})
+}
+
+// verifySeqCase: ONE JWTProfileVerifier (storage-backed or with a key set)
+// reused for assertions of different issuers, with or without delegation.
+func (g *gen) verifySeqCase() {
+	r := g.r
+	clients := []string{"client-a", "client-b", "evil-client"}
+	// every client registers its own key under the same kid
+	keys := map[string]pubKey{}
+	perm := r.Perm(4) // RSA0, RSA1, P256a, P256b: the key types of the default allow-list
+	for i, cl := range clients {
+		k := g.pool.Keys[perm[i]]
+		alg := "ES256"
+		if k.Kty == "KRsa" {
+			alg = drv.Pick(r, []string{"RS256", "PS256"})
+		}
+		keys[cl] = pubKey{tok.JWK{Kid: "k1", Use: "sig", Key: k}, alg}
+	}
+	ks := tok.KeySetDesc{Kind: "profile"}
+	for _, cl := range clients {
+		if cl == "evil-client" && r.Chance(1, 4) {
+			continue // not always registered
+		}
+		ks.Store = append(ks.Store, tok.StoreEntry{Client: cl, Kid: "k1", Key: keys[cl].j})
+	}
+	deleg := r.Chance(1, 3)
+	v := tok.VCfg{Issuer: issuer, Client: "", Offset: drv.Pick(r, []time.Duration{0, time.Second}), MaxIAT: drv.Pick(r, []time.Duration{0, time.Hour})}
+	jv := newJWTVerifier(ks, v, deleg) // ONE verifier for the whole sequence
+	n := 2 + r.IntN(3)
+	var steps, obs, who []string
+	var prev []string
+	amb := false
+	pan := ""
+	now := time.Now().Unix()
+	for st := 0; st < n && pan == ""; st++ {
+		iss := drv.Pick(r, clients)
+		sgc := iss
+		switch x := r.IntN(10); {
+		case x < 3 && len(prev) > 0:
+			sgc = drv.Pick(r, prev) // the key of a client this verifier has served before
+		case x < 4:
+			sgc = drv.Pick(r, clients)
+		}
+		c := tok.Claims{Iss: iss, Sub: iss, Aud: []string{issuer}, Exp: now + 3600, Iat: now - 10}
+		if deleg && r.Bool() {
+			c.Sub = drv.Pick(r, clients)
+		}
+		if r.Chance(1, 10) {
+			c.Exp = now - 3600
+		}
+		sk := keys[sgc]
+		t, m := tok.Build(r, tok.BuildSpec{Signer: sk.j.Key, Alg: sk.alg, Kid: "k1", Claims: c, Payload: c.Payload(tok.PayloadOpts{Reverse: r.Bool()}), Mut: "none"})
+		var out *oidc.JWTTokenRequest
+		var err error
+		ctx, cancel := context.WithTimeout(context.Background(), 5*time.Second)
+		t0 := time.Now().UnixNano()
+		pan = drv.Catch(func() { out, err = op.VerifyJWTAssertion(ctx, t.Raw, jv) })
+		t1 := time.Now().UnixNano()
+		cancel()
+		if tok.TimeView(v, c, t0) != tok.TimeView(v, c, t1) {
+			amb = true
+		}
+		obs = append(obs, jwtOutcome(out, err))
+		steps = append(steps, emit.Ctor("mkVStep", t.Coq(), m.Coq(), emit.Z(t0), emit.Z(t1)))
+		who = append(who, iss+"<-"+sgc)
+		prev = append(prev, iss)
+	}
+	if amb {
+		g.amb++
+		return
+	}
+	o := emit.Ctor("OVerifySeq", emit.List(obs))
+	if pan != "" {
+		o = "OPanic"
+	}
+	in := emit.Ctor("IVerifySeq", emit.Ctor("VJWTAssertion", emit.Bool(deleg)), v.Coq(), ks.Coq(), emit.List(steps))
+	g.w.Add(emit.Case{Input: in, Observed: o,
+		Tags:  []string{"kind=verifyseq", "v=jwt", fmt.Sprintf("steps=%d", n), fmt.Sprintf("deleg=%v", deleg)},
+		Human: map[string]any{"issuer<-signer": who}})
+}
+
 func idOutcome(out *oidc.IDTokenClaims, err error) string {
 	if out != nil {
 		cl, alg := tok.FromIDToken(out)
@@ -680,20 +928,24 @@ func main() {
 	g.pool = tok.NewPool(g.r)
 	tok.SetWarm(g.pool)
 	g.w = emit.NewWriter(cfg.Out, "C02_spec", 0, cfg.Only)
-	n := cfg.Count(560, 14000)
+	n := cfg.Count(600, 15000)
 	kinds := []string{"rp", "at", "hint", "jwt", "ro"}
 	for i := 0; i < n; i++ {
-		switch i % 8 {
+		switch i % 10 {
 		case 0:
 			g.findCase()
 		case 1, 2:
 			g.checkSigCase()
+		case 8:
+			g.remoteSeqCase()
+		case 9:
+			g.verifySeqCase()
 		default:
-			g.verifyCase(kinds[i%8-3])
+			g.verifyCase(kinds[i%10-3])
 		}
 	}
 	err := g.w.Close(emit.Meta{Property: "C02", Tier: cfg.Tier, Seed: cfg.Seed,
-		Rule: "1/8 oidc.FindMatchingKey on random key lists built around the query; 2/8 oidc.CheckSignature and 5/8 the five public verifiers (rp.VerifyIDToken, op.VerifyAccessToken, op.VerifyIDTokenHint, op.VerifyJWTAssertion, op.ParseRequestObject) on a really signed token (algorithm sweep RS/PS/ES/EdDSA/HS) with one mutation of the catalogue (about half benign) against library key sets (op.OpenIDKeySet, rp remote key set incl. warm/stale cache, jwtProfileKeySet storage) built around the signer's key with distractors. Non-trivial = model path class != 0 (anything but an empty key list / ParseToken reject); distinct = distinct input term.",
+		Rule:  "1/10 sequences of 3-5 oidc.CheckSignature calls on ONE remote key set while the provider rotates / adds / withdraws keys or is unreachable (tokens signed by current, withdrawn or foreign keys; the number of successful downloads is observed); 1/10 sequences of 2-4 assertions of different issuers on ONE JWTProfileVerifier (own key / key of a client served before / delegation); 1/10 oidc.FindMatchingKey on random key lists built around the query; 2/10 oidc.CheckSignature and 5/10 the five public verifiers (JWT profile verifier with the default SubjectIsIssuer or a SubjectCheck admitting delegation, storage-backed or with a caller's key set) (rp.VerifyIDToken, op.VerifyAccessToken, op.VerifyIDTokenHint, op.VerifyJWTAssertion, op.ParseRequestObject) on a really signed token (algorithm sweep RS/PS/ES/EdDSA/HS) with one mutation of the catalogue (about half benign) against library key sets (op.OpenIDKeySet, rp remote key set incl. warm/stale cache, jwtProfileKeySet storage) built around the signer's key with distractors. Non-trivial = model path class != 0 (anything but an empty key list / ParseToken reject); distinct = distinct input term.",
 		Extra: map[string]any{"clock_ambiguous": g.amb}})
 	if err != nil {
 		fmt.Fprintln(os.Stderr, err)
